@@ -9,7 +9,23 @@ use report::generation::generate_report;
 #[macro_use]
 extern crate colour;
 
+//The analysis recurses once per nesting level of the source and its stack frames are large in
+//unoptimized builds, so it runs on a thread with a stack that does not overflow on deeply nested contracts
+const ANALYSIS_STACK_SIZE: usize = 512 * 1024 * 1024;
+
 fn main() {
+    let analysis = std::thread::Builder::new()
+        .stack_size(ANALYSIS_STACK_SIZE)
+        .spawn(run)
+        .expect("Could not spawn the analysis thread");
+
+    //A panic of the analysis still ends the run with the exit status of a panic
+    if analysis.join().is_err() {
+        std::process::exit(101);
+    }
+}
+
+fn run() {
     let opts = Opts::new();
 
     let vulnerabilities = vulnerabilities::analyze_dir(&opts.path, opts.vulnerabilities);
